@@ -69,6 +69,9 @@ func c01validator(ctx context.Context, database, username, password string) (con
 	case strings.HasPrefix(password, "errt:"):
 		// the password matched but a later step of the validator failed
 		return ctx, true, errors.New("validator: profile lookup failed after the password matched")
+	case strings.HasPrefix(password, "slowok:"):
+		time.Sleep(80 * time.Millisecond) // a slow back end; the password is right
+		return ctx, true, nil
 	case strings.HasPrefix(password, "panic:"):
 		var profiles map[string][]string
 		return ctx, len(profiles[username][0]) > 0, nil // index out of range: a validator bug for this user
@@ -345,6 +348,48 @@ func (ch c01) Run(c *core.Ctx) {
 		}
 		wg.Wait()
 		c.Count("concurrent_authentication_groups", 1)
+	}
+	// logins whose (accepting) validator is slow, and right behind them logins with a wrong password, on a
+	// server with every timeout this tree offers set short: whatever becomes of the slow ones, a wrong
+	// password is never accepted
+	if c.Batch == 1 && c.Begin(98000000) {
+		hs.ShortTimeouts = true
+		envT := hs.Start(hs.Parse, wire.SessionAuthStrategy(wire.ClearTextPassword(c01validator)), wire.SessionMiddleware(c01session))
+		hs.ShortTimeouts = false
+		for round := 0; round < 3; round++ {
+			var slow []*tr.Conn
+			for i := 0; i < 12; i++ {
+				conn := envT.Dial(&hs.Sess{Default: func(string) *hs.Prog { return probe }})
+				conn.Send(append(pg.Startup([][2]string{{"user", fmt.Sprintf("slow%d", i)}}), pg.Password("slowok:pw")...))
+				slow = append(slow, conn)
+			}
+			time.Sleep(40 * time.Millisecond)
+			for i := 0; i < 12; i++ {
+				conn := envT.Dial(&hs.Sess{Default: func(string) *hs.Prog { return probe }})
+				conn.Send(append(append(pg.Startup([][2]string{{"user", fmt.Sprintf("wrong%d", i)}}), pg.Password("no:wrong")...), pg.Query("select 'with a wrong password'")...))
+				closed, _ := conn.Quiesce()
+				time.Sleep(5 * time.Millisecond)
+				kinds, served := replyKinds(conn.Out()), ""
+				for _, e := range conn.Events() {
+					if e.Kind == "cb" && e.Name != "validate" {
+						served += e.Name + " "
+					}
+				}
+				c.Count("wrong_passwords_next_to_slow_validators", 1)
+				if strings.Contains(kinds, "R(0)") || strings.Contains(kinds, "Z") || served != "" || !closed {
+					c.Violate("session-without-acceptance", "a connection with a wrong password reached the authenticated phase while other logins were waiting for a slow validator", fmt.Sprintf("round %d login %d: closed=%v reply %s, callbacks: %s", round, i, closed, kinds, served), nil)
+					break
+				}
+			}
+			for _, conn := range slow {
+				conn.Quiesce()
+				conn.CloseWrite()
+				conn.WaitClosed()
+			}
+		}
+		c.Count("server_timeout_fields_set_short", int64(hs.TimeoutsSet))
+		c.Eval("slow validators", true)
+		envT.Stop()
 	}
 	// last case of the batch: a validator that fails by panicking for this user. A tree that does not
 	// recover panics of the embedding program's callbacks loses the process here (announced: not a finding);
